@@ -85,6 +85,21 @@ def mk(lib, dt, shape):
     return jax.device_put(np.zeros(shape, dtype=dt))
 names = [n for n in dltype.__all__ if n.endswith("Tensor") and getattr(dltype, n, None) is not None] if hasattr(dltype, "__all__") else []
 names = names or [n for n in dir(dltype) if n.endswith("Tensor") and isinstance(getattr(dltype, n), type)]
+if order == [1, 2, 0]:
+    # the single-library classes of the same names (what dltype exports when only one library is installed) see arrays of every
+    # library FIRST: what they remember must not colour the verdict of the universal classes
+    from dltype._lib import _numpy_tensors, _torch_tensors
+    for n in sorted(names):
+        for mod in (_torch_tensors, _numpy_tensors):
+            c = getattr(mod, n, None)
+            if c is None:
+                continue
+            for dt in SHARED:
+                for lib in order:
+                    try:
+                        c["a b"].check(mk(lib, dt, (2, 3)))
+                    except Exception:
+                        pass
 out = {}
 for n in sorted(names):
     cls = getattr(dltype, n)
